@@ -4,13 +4,14 @@ Confirm a seeded change independently (suite green, demo fails with it and passe
 property's check against it, and store it under /verif/seeded/<PROP>-<k>/ with meta.json."""
 import os, sys, subprocess, json, shutil, tempfile, time
 prop, k, src = sys.argv[1], sys.argv[2], sys.argv[3]
+label = sys.argv[4] if len(sys.argv) > 4 else k
 tiers = ['quick', 'thorough']
 patch = os.path.join(src, 'patch%s.diff' % k)
 demo = os.path.join(src, 'demo%s.py' % k)
 note = os.path.join(src, 'note%s.md' % k)
 d = tempfile.mkdtemp(prefix='crysp-seed-', dir='/var/tmp')
 os.rmdir(d)
-meta = {'property': prop, 'k': int(k), 'ran_at_repo_commit': subprocess.check_output(['git', '-C', '/repo', 'log', '--format=%h', '-1'], text=True).strip()}
+meta = {'property': prop, 'k': label, 'ran_at_repo_commit': subprocess.check_output(['git', '-C', '/repo', 'log', '--format=%h', '-1'], text=True).strip()}
 try:
     subprocess.check_call(['git', '-C', '/repo', 'worktree', 'add', '-q', '--detach', d, 'HEAD'])
     env = dict(os.environ, PYTHONPATH=d, PYTHONDONTWRITEBYTECODE='1')
@@ -43,7 +44,7 @@ finally:
     subprocess.run(['git', '-C', '/repo', 'worktree', 'remove', '--force', d], capture_output=True)
     shutil.rmtree(d, ignore_errors=True)
     subprocess.run(['git', '-C', '/repo', 'worktree', 'prune'], capture_output=True)
-out = '/verif/seeded/%s-%s' % (prop, k)
+out = '/verif/seeded/%s-%s' % (prop, label)
 os.makedirs(out, exist_ok=True)
 shutil.copy(patch, out + '/patch.diff')
 shutil.copy(demo, out + '/demo.py')
